@@ -176,7 +176,7 @@ impl Default for SchedCfg {
             short_write_pm: 0,
             eagain_pm: 0,
             preempt_pm: 0,
-            iter_cost_ns: 20_000,
+            iter_cost_ns: 1_000,
             max_virtual_ns: 3600 * SEC,
             max_iterations: 2_000_000,
         }
@@ -216,6 +216,11 @@ pub struct World {
     pub hook_depth: u32,
     /// SO_SNDBUF values applied (PRNG pick) to each new sozu-side stream socket
     pub sndbuf_choices: Option<Vec<i32>>,
+    /// epoll token -> fd for sozu's simulated stream sockets
+    pub token_fd: BTreeMap<u64, i32>,
+    /// fds on which sozu itself shut down its write side
+    pub shut_wr: std::collections::BTreeSet<i32>,
+    pub hup_masked: u64,
 }
 
 impl World {
@@ -249,6 +254,9 @@ impl World {
             sozu_fds: BTreeMap::new(),
             hook_depth: 0,
             sndbuf_choices: None,
+            token_fd: BTreeMap::new(),
+            shut_wr: Default::default(),
+            hup_masked: 0,
         })
     }
 
@@ -471,6 +479,7 @@ impl World {
                 sys::set_errno(-n);
                 return -1;
             }
+            let n = if n > 0 { self.tcp_hup_semantics(events, n) } else { n };
             if n > 0 {
                 if truncated && n == maxev { self.stats.epoll_truncated += 1; }
                 let evs = unsafe { std::slice::from_raw_parts_mut(events, n as usize) };
@@ -482,6 +491,7 @@ impl World {
                     }
                 }
                 self.stats.epoll_events += n as u64;
+                if self.log_on { let d: Vec<String> = evs.iter().map(|e| { let (b, t) = (e.events, e.u64); format!("tok{}:{:x}", t, b) }).collect(); self.logf(|| format!("epoll_wait -> {}", d.join(" "))); }
                 self.trace.mix(0xE0);
                 for e in evs.iter() { let (ev, d) = (e.events, e.u64); self.trace.mix(((ev as u64) << 32) ^ d); }
                 return n;
@@ -507,6 +517,7 @@ impl World {
             if self.now >= deadline && !self.astate.iter().any(|a| a.runnable && !a.done) {
                 // one last look, then report a timeout
                 let n = unsafe { sys::sc!(libc::SYS_epoll_wait, epfd, events, maxevents, 0) } as i32;
+                let n = if n > 0 { self.tcp_hup_semantics(events, n) } else { n };
                 if n > 0 {
                     self.stats.epoll_events += n as u64;
                     self.trace.mix(0xE1);
@@ -518,6 +529,29 @@ impl World {
             }
             k = 1;
         }
+    }
+
+    /// AF_UNIX reports EPOLLHUP as soon as the peer closes; TCP reports it only once both
+    /// directions are shut down or the connection was reset. Translate: on sozu's simulated
+    /// stream sockets a HUP without ERR is dropped (IN|RDHUP remain) unless sozu itself already
+    /// shut down its write side. Events left empty are removed from the array.
+    fn tcp_hup_semantics(&mut self, events: *mut libc::epoll_event, n: i32) -> i32 {
+        let evs = unsafe { std::slice::from_raw_parts_mut(events, n as usize) };
+        let mut out = 0usize;
+        for i in 0..evs.len() {
+            let mut e = evs[i];
+            let (bits, data) = (e.events, e.u64);
+            if bits & libc::EPOLLHUP as u32 != 0 && bits & libc::EPOLLERR as u32 == 0 {
+                if let Some(fd) = self.token_fd.get(&data).copied() {
+                    if matches!(self.sozu_fds.get(&fd), Some('a') | Some('c')) && !self.shut_wr.contains(&fd) && !self.pending.contains_key(&fd) {
+                        e.events = bits & !(libc::EPOLLHUP as u32);
+                        self.hup_masked += 1;
+                    }
+                }
+            }
+            if e.events != 0 { evs[out] = e; out += 1; }
+        }
+        out as i32
     }
 
     // ---------- hooks' helpers ----------
@@ -583,6 +617,7 @@ impl World {
     /// epoll_ctl from sozu. Returns Some(result) if handled here.
     pub fn on_epoll_ctl(&mut self, epfd: i32, op: i32, fd: i32, ev: *mut libc::epoll_event) -> Option<i32> {
         if op == libc::EPOLL_CTL_DEL {
+            if let Some((_, _, data)) = self.epoll_regs.get(&fd) { let d = *data; if self.token_fd.get(&d) == Some(&fd) { self.token_fd.remove(&d); } }
             self.epoll_regs.remove(&fd);
             if let Some(p) = self.pending.get_mut(&fd) { p.reg = None; }
             return None;
@@ -591,6 +626,7 @@ impl World {
         let (events, data) = unsafe { ((*ev).events, (*ev).u64) };
         if self.sozu_fds.contains_key(&fd) {
             self.epoll_regs.insert(fd, (epfd, events, data));
+            self.token_fd.insert(data, fd);
         }
         if let Some(p) = self.pending.get_mut(&fd) {
             p.reg = Some((epfd, events, data));
@@ -611,7 +647,10 @@ impl World {
         }
         self.so_error.remove(&fd);
         self.rearm.remove(&fd);
+        self.shut_wr.remove(&fd);
+        if let Some((_, _, data)) = self.epoll_regs.get(&fd) { let d = *data; if self.token_fd.get(&d) == Some(&fd) { self.token_fd.remove(&d); } }
         self.epoll_regs.remove(&fd);
+        if self.sozu_fds.contains_key(&fd) { self.logf(|| format!("sozu close fd={fd}")); }
         if self.sozu_fds.remove(&fd).is_some() {
             self.tr(0xCC, 0);
         }
@@ -685,6 +724,11 @@ impl World {
     pub fn pre_io(&mut self, fd: i32, is_write: bool, len: usize) -> Option<(isize, usize)> {
         match self.sozu_fds.get(&fd) { Some('a') | Some('c') => {}, _ => return None }
         if self.hook_depth > 0 { return None; }
+        if self.is_pending(fd) {
+            // connect still in progress: a non-blocking TCP socket reports EAGAIN for send and recv
+            self.tr(0xF3, is_write as u64);
+            return Some((-1, 0));
+        }
         if self.cfg.preempt_pm > 0 && self.sched.below(1000) < self.cfg.preempt_pm as u64 {
             self.hook_depth += 1;
             self.stats.preemptions += 1;
